@@ -19,7 +19,7 @@ INFO: dict[str, dict[str, Any]] = {
                  "thorough sweeps every commit of each program and adds 2nd/3rd crashes inside recovery/drain. "
                  "distinct = digest of the observed durable history (status changes, queue inserts/deletes, ledger, "
                  "commit shape); non-trivial = the crash actually fired"),
-        "budget": {"quick": {"runs": 48, "seconds": 170, "chunk": 3}, "thorough": {"runs": None, "seconds": 1200, "chunk": 2}},
+        "budget": {"quick": {"runs": 48, "seconds": 100, "chunk": 3}, "thorough": {"runs": None, "seconds": 1200, "chunk": 2}},
         "assumptions": COMMON_ASSUMPTIONS + ["restart order is the property's: lock expiry, then recovery sweep, then drain"],
         "expected_probes": [],
     },
@@ -114,5 +114,42 @@ INFO: dict[str, dict[str, Any]] = {
                  "non-trivial = more than two task executions recorded"),
         "budget": {"quick": {"runs": 400, "seconds": 120, "chunk": 20}, "thorough": {"runs": None, "seconds": 900, "chunk": 20}},
         "assumptions": COMMON_ASSUMPTIONS + ["4 PYTHONHASHSEED values per batch (set iteration order feeds the ancestor merge)"],
+    },
+    "C04": {
+        "level": "exploration",
+        "engine": "W",
+        "technique": "deterministic simulation: 2-3 workers as baton-passed threads pre-empted at every SQL statement/commit over real SQLite locking; seeded random-walk and PCT schedules",
+        "rule": ("one evaluation = one simulated execution of a fan-in workflow (2-3 branches into AND/DISCRIMINATOR/N_OF_M/OR join, stage "
+                 "behind the join, optional synthetic stages / builder-built tasks) handled by 2-3 interleaved workers; schedule = seeded "
+                 "random walk or PCT (1-3 priority change points); oracle on the durable history: one start, one plan, one trigger per "
+                 "upstream, each task step once. distinct = durable-history digest; non-trivial = at least one pre-emption of a ready worker"),
+        "budget": {"quick": {"runs": 240, "seconds": 150, "chunk": 10}, "thorough": {"runs": None, "seconds": 1200, "chunk": 10}},
+        "assumptions": COMMON_ASSUMPTIONS + ["sampling instead of exhaustive enumeration under a pre-emption bound (the property text asks for the latter): PCT gives a per-run probability bound only"],
+        "expected_probes": ["lock_wait"],
+    },
+    "C11": {
+        "level": "exploration",
+        "engine": "W",
+        "technique": "deterministic simulation: statement-level interleaving of 2-3 workers starting sibling stages of one mutex / deferred-choice group, retention sweep as an extra actor",
+        "rule": ("one evaluation = one simulated execution of 2-4 sibling stages sharing a mutex key or a deferred-choice group, handled by "
+                 "2-3 interleaved workers (random walk / PCT) plus, in 60% of runs, a retention-sweep actor; oracle: <=1 RUNNING stage per "
+                 "mutex key at every commit boundary, every waiter eventually runs, exactly one choice winner and CANCELED losers, no claim "
+                 "of a live execution deleted. non-trivial = at least one pre-emption"),
+        "budget": {"quick": {"runs": 240, "seconds": 150, "chunk": 10}, "thorough": {"runs": None, "seconds": 1200, "chunk": 10}},
+        "assumptions": COMMON_ASSUMPTIONS,
+        "expected_probes": ["lock_wait"],
+    },
+    "C07": {
+        "level": "exploration",
+        "engine": "W",
+        "technique": "deterministic simulation: statement-level interleaving of 2-3 read-modify-write writers on one stage (plain and transactional store API) with a version/lost-update reference; plus engine-level racing pairs",
+        "rule": ("one evaluation = either (S, 60%) 2-3 writers x 2-5 read-modify-write operations on one stage through store.store_stage / "
+                 "store.transaction().store_stage (with and without expected_phase), retrying on ConcurrencyError 0/1/3 times, interleaved "
+                 "at SQL statement level, judged by version accounting + presence of every successfully saved change + absence of given-up "
+                 "ones; or (E) a workflow in which upstream completions race on a first-of/quorum join's tracking context, or a CancelStage "
+                 "races task completion. non-trivial = at least one ConcurrencyError was raised (S) / one pre-emption (E)"),
+        "budget": {"quick": {"runs": 320, "seconds": 150, "chunk": 16}, "thorough": {"runs": None, "seconds": 1200, "chunk": 16}},
+        "assumptions": COMMON_ASSUMPTIONS + ["a writer that gives up after ConcurrencyError issues no further statement; its connection is closed when the writer ends (process exit), rolling back whatever it left open"],
+        "expected_probes": ["concurrency_error", "lock_wait"],
     },
 }
